@@ -113,8 +113,8 @@ Answer ==
   /\ LET k == K("answer") IN
      ansState' =
        IF keyState = "bogus" THEN "bogus"
-       ELSE IF keyState = "none" THEN     \* provably insecure zone: data accepted unsigned
-         (IF k = "inject" THEN "bogus" ELSE "insecure")
+       ELSE IF keyState = "none" THEN     \* provably insecure zone: data accepted unsigned;
+         "insecure"                       \* foreign answer records are dropped, not fatal (C07's filter)
        ELSE
          (IF BreaksSig(k) \/ k \in {"strip", "inject"} THEN "bogus"
           ELSE IF NeedsProof /\ k \in {"dropproof", "foreignproof"} THEN "bogus"
@@ -154,7 +154,7 @@ EffectiveAt(pos) ==
     [] pos = "referral" /\ k \in {"dropds", "swapds"} -> ZoneSigned
     [] pos = "dnskey" -> ZoneSigned
     [] pos = "answer" /\ k \in {"dropproof", "foreignproof"} -> ZoneSigned /\ NeedsProof
-    [] pos = "answer" /\ k = "inject" -> TRUE
+    [] pos = "answer" /\ k = "inject" -> ZoneSigned   \* in an unsigned zone the foreign RRset is filtered (bailiwick), the rest is served
     [] pos = "answer" -> ZoneSigned          \* signature / data tampering in an unsigned zone is out of scope
     [] OTHER -> TRUE
 Effective == \E pos \in Positions : EffectiveAt(pos)
